@@ -409,6 +409,7 @@ func checkC19(r *Report, known []Finding) {
 				map[string]any{"correspondence": "Cx.Fast model vs " + c.searcher, "pattern": c.p, "request": c.req, "code": c.got, "model": want}, false)
 		}
 	}
+	c02StrategyTies(r)    // the reverse-suffix-set / inner / anchored / multiline searchers are fast paths of this property too (models under C02)
 	c19CompositeDFATie(r) // CompositeSequenceDFA (nfa/composite_dfa.go) vs its Lean model Cx.CompDfa, and vs regexp where meta uses it
 	r.Sample(map[string]any{"seed_templates": c19Seeds[:8], "mutations": "lazy, (?U), (?i), (?s), (?m), trailing literal, \\b before/after, capture, non-ASCII member, Latin-1 member, {0}, lazy quantifier, empty-width alternative"})
 	c02GuardsTie(r) // the strategy guards that decide which fast path / engine a pattern may reach vs Cx.Guards
